@@ -33,7 +33,8 @@ RULE = ("streams: shapes = every table shape 1..3 columns x 0..2 rows (exhaustiv
         "schema of a generated copybook (all PIC X(w)); ctl = plain and cobol workbooks whose cells also draw on the C0 controls VT FF FS GS RS "
         "(str.splitlines line ends, legal in CSV, JSON, Numbers, fixed text and CP037), written to every format except XLSX and ODS, "
         "whose writers refuse them; numsep = Numbers sheet names containing the sheet::table separator "
-        "(known finding); xls = the read-only XLS sample against the XLSX sample. "
+        "(known finding); anchors = tables whose column names include a name and another name equal to its cleaned ($anchor) form, "
+        "both orders, with and without a column in between (all header-row formats and NDJSON); xls = the read-only XLS sample against the XLSX sample. "
         "Non-trivial = at least one data row (branch not 0); distinct = distinct case lines.")
 TRIVIAL_BRANCHES = [0]
 ASSUMPTIONS = [
@@ -60,6 +61,9 @@ TRUSTED = [
 
 HEADINGS = ["sep\u2028h", "Customer Name", "ZIP Code", "Amount ($)", "1st", "-x", ".y", "a__b", "a b", "a_b", "é", "名前", "Total %", "x", "y1",
             "X", "None", "name", "position", "a,b", "q\"uote", " lead", "trail ", "tab\there", "#", "2", "Ünï", "it's", "=1+1", "TRUE"]
+# (heading, another heading equal to name_cleaner(heading))
+ANCHOR_PAIRS = [("a b", "a_b"), ("Total %", "Total_"), ("-x", "_x"), (".y", "_y"), ("1st", "_st"), ("é", "_"), ("名前", "_"),
+                ("a,b", "a_b"), ("x y z", "x_y_z")]
 COBOL_NAMES = ["COL-A", "B2", "CUST-NM", "ZIP", "AMT", "X", "FLD-1", "FLD-2", "REC-KEY", "Q9", "CITY", "W-99", "LAST-ONE"]
 CELLS = ["1", "00123", "abc", "x y", " lead", "trail ", "é", "ß", "Ñandú", "a,b", "\"q\"", "it's", "tab\there", "=1+1", "TRUE", "FALSE",
          "1.50", "None", "null", "-7", "0", "1e5", "2024-01-01", "12:30", "50%", "$5", "#N/A", "1/2", " ", "  ", "\xa0", "a;b", "a|b",
@@ -131,6 +135,14 @@ def inputs(ctx):
             rows = [[f"r{i}{j}" for j in range(n)] for i in range(m)]
             yield "shapes", {"kind": "cobol", "numbers": [],
                              "tables": [{"name": "Sheet1", "header": header, "rows": rows, "widths": widths}]}
+    # column names whose cleaned form (the $anchor the heading-row loader computes) equals ANOTHER column's name:
+    # by-name access must go by the name asked for, in either column order
+    ctx.exhaustive.append("anchor_collisions_both_orders")
+    for i, (a, b) in enumerate(ANCHOR_PAIRS):
+        for header in ([a, b], [b, a], [a, "mid", b], [b, "mid", a]):
+            rows = [[f"r{r}-{j}" for j in range(len(header))] for r in range(2)]
+            yield "anchors", {"kind": "plain", "numbers": [["S", "T"]] if i < 2 and len(header) == 2 else [],
+                              "tables": [{"name": "Sheet1", "header": header, "rows": rows, "widths": []}]}
     n_plain, n_cobol, n_num = (40, 40, 16) if quick else (300, 300, 100)
     for i in range(n_plain):
         yield "plain", _workbook(rng, "plain", i < n_num // 2)
